@@ -1,6 +1,7 @@
 import DepLogic.Model.Version
 import DepLogic.Model.Spec
 import DepLogic.Model.Generic
+import DepLogic.Model.Pep440
 /-
   Text encodings of model values for the line protocol (harness ⇄ driver).
   Part of the trusted correspondence machinery, not of any theorem.
@@ -80,9 +81,36 @@ def parseOptVer (s : String) : Option (Option Ver) :=
 def showOptVer : Option Ver → String
   | none => "-" | some v => v.str
 
-def parseOptText (s : String) : Option String := if s == "-" then none else some s
-def showOptText : Option String → String
-  | none => "-" | some t => t
+/-- clause text `op version[.*]` over canonical version spellings -/
+def parseClauseL (s : List Char) : Option (Clause Ver) :=
+  let (op?, rest) : Option COp × List Char :=
+    match s with
+    | '>' :: '=' :: r => (some .ge, r)
+    | '<' :: '=' :: r => (some .le, r)
+    | '=' :: '=' :: r => (some .eq, r)
+    | '!' :: '=' :: r => (some .ne, r)
+    | '~' :: '=' :: r => (some .compat, r)
+    | '>' :: r => (some .gt, r)
+    | '<' :: r => (some .lt, r)
+    | _ => (none, [])
+  match op? with
+  | none => none
+  | some op =>
+    let (body, wild) :=
+      match rest.reverse with
+      | '*' :: '.' :: r => (r.reverse, true)
+      | _ => (rest, false)
+    if wild && !(op == .eq || op == .ne) then none
+    else (parseVerL body).bind fun v =>
+      if wild && !v.isFinal then none else some { op := op, ver := v, wild := wild }
+
+def clauseText (c : Clause Ver) : String :=
+  c.op.str ++ c.ver.str ++ (if c.wild then ".*" else "")
+
+def parseOptText (s : String) : Option (Option (Clause Ver)) :=
+  if s == "-" then some none else (parseClauseL s.toList).map some
+def showOptText : Option (Clause Ver) → String
+  | none => "-" | some t => clauseText t
 
 /-- `R(min,max,incMin,incMax,text)` -/
 def parseRange (s : String) : Option (Range Ver) :=
@@ -90,10 +118,10 @@ def parseRange (s : String) : Option (Range Ver) :=
     let body := ((s.drop 2).dropEnd 1).toString
     match body.splitOn "," with
     | [a, b, c, d, e] =>
-      match parseOptVer a, parseOptVer b, parseBool c, parseBool d with
-      | some mn, some mx, some i, some j =>
-        some { min := mn, max := mx, incMin := i, incMax := j, text := parseOptText e }
-      | _, _, _, _ => none
+      match parseOptVer a, parseOptVer b, parseBool c, parseBool d, parseOptText e with
+      | some mn, some mx, some i, some j, some t =>
+        some { min := mn, max := mx, incMin := i, incMax := j, text := t }
+      | _, _, _, _, _ => none
     | _ => none
   else none
 
@@ -111,7 +139,7 @@ def parseSpec (s : String) : Option (Spec Ver) :=
     | [rs, t] =>
       let parts := if rs.isEmpty then [] else (rs.splitOn ";").map parseRange
       if parts.any Option.isNone then none
-      else some (.union (parts.filterMap id) (parseOptText t))
+      else (parseOptText t).map fun t' => .union (parts.filterMap id) t'
     | _ => none
   else none
 
@@ -125,6 +153,30 @@ def showGRes : GRes → String
   | .empty => "E"
   | .any => "A"
   | .spec g => "S\t" ++ g.op.str ++ "\t" ++ g.value
+
+
+def trimL (s : List Char) : List Char :=
+  ((s.dropWhile (· == ' ')).reverse.dropWhile (· == ' ')).reverse
+
+/-- `a,b||c` over canonical clause spellings -/
+def parseAltsText (s : String) : Option (List Alt) :=
+  let parts := s.splitOn "||"
+  let one (p : String) : Option Alt :=
+    if p == "<empty>" then some .empty
+    else
+      let t := trimL p.toList
+      if t.isEmpty then some (.clauses [])
+      else
+        let cs := (splitOnChar ',' t).map fun x => parseClauseL (trimL x)
+        if cs.any Option.isNone then none else some (.clauses (cs.filterMap id))
+  let alts := parts.map one
+  if alts.any Option.isNone then none else some (alts.filterMap id)
+
+def showClauses (cs : List (Clause Ver)) : String := ",".intercalate (cs.map clauseText)
+
+def showSText : SText → String
+  | .empty => "<empty>"
+  | .alts as => "||".intercalate (as.map showClauses)
 
 end Codec
 end DepLogic
